@@ -19,8 +19,8 @@ PID = "C27"
 LEVEL = "proof"
 LEAN = ["SaVerif.Props.C27"]
 META = {
-    "text": "Lean theorems over ALL states / histories of the transcribed Connection+pool model: (disconnect_invalidates) an error classified as a disconnect - by the dialect or by a handle_error listener - always returns the disconnect result, leaves the Connection invalidated and moves the pool's invalidation time past every pooled connection (stale_never_handed_out: by an inductive invariant over all later histories no DBAPI connection that existed at the failure is ever held again); (pending_rollback_until_rollback) while invalidated with a transaction attached, execute / begin / begin_nested / commit / savepoint commit raise and neither the database nor the blocked state changes, for every sequence of such calls; (reconnect_after_rollback) rollback() then needs no DBAPI call, detaches the transaction and the next statement runs on a fresh, clean DBAPI connection; (non_disconnect_leaves_pool) errors not classified as disconnects leave connection, pool queue and invalidation time untouched. Tied to engine/base.py + pool/base.py by a per-step differential run with a fault at every position (4 fault points x 2 kinds x 4 listener modes) and a direct oracle.",
-    "note": "reconnect_after_rollback is stated for a disconnect detected BEFORE rollback(); when the disconnect (or any error) is first raised BY rollback()/close() itself the savepoint objects stay current and active (rollback_failure_counterexample, known finding rollback-failure-leaves-savepoint-current, F19). Modelled-not-verified: the dialect's is_disconnect tables (only pysqlite's closed-database classification is executed; a fault kind stands for the classification), time.time() (logical clock substituted in sqlalchemy.pool.base), single-threaded QueuePool, DBAPI driver behind the proxy. pre_ping and soft invalidation are not modelled.",
+    "text": "Lean theorems over ALL states / histories of the transcribed Connection+pool model: (disconnect_invalidates) an error classified as a disconnect - by the dialect or by a handle_error listener - always returns the disconnect result, leaves the Connection invalidated and moves the pool's invalidation time past every pooled connection (stale_never_handed_out: by an inductive invariant over all later histories no DBAPI connection that existed at the failure is ever held again); (pending_rollback_until_rollback) while invalidated with a transaction attached, execute / begin / begin_nested / commit / savepoint commit raise and neither the database nor the blocked state changes, for every sequence of such calls; (reconnect_after_rollback) rollback() then needs no DBAPI call, detaches the transaction and the next statement runs on a fresh, clean DBAPI connection; (non_disconnect_leaves_pool) errors not classified as disconnects leave connection, pool queue and invalidation time untouched; (failed_reconnect_stays_invalidated) a reconnect whose creator fails leaves the Connection invalidated and the pool without new usable connections; (recycle_respects_invalidation) for every pool_recycle setting a pooled connection is handed out only if born after the last pool invalidation. Tied to engine/base.py + pool/base.py by a per-step differential run with a fault at every position (5 fault points incl. the creator x 2 kinds x 4 listener modes x 3 pool_recycle settings) and a direct oracle (also run with pool_pre_ping).",
+    "note": "reconnect_after_rollback is stated for a disconnect detected BEFORE rollback(); when the disconnect (or any error) is first raised BY rollback()/close() itself the savepoint objects stay current and active (rollback_failure_counterexample, known finding rollback-failure-leaves-savepoint-current, F19). Modelled-not-verified: the dialect's is_disconnect tables (only pysqlite's closed-database classification is executed; a fault kind stands for the classification), time.time() (logical clock substituted in sqlalchemy.pool.base), single-threaded QueuePool, DBAPI driver behind the proxy. pool_pre_ping is exercised by the oracle only (not in the Lean model); soft invalidation is not modelled.",
     "technique": "Lean 4 single-step theorems for all states + inductive invariants over all histories of a hand-transcribed model; per-step differential correspondence with fault injection on a real pool over SQLite",
     "design_ref": "DESIGN.md §3 C27",
 }
@@ -51,9 +51,10 @@ def oracle(ops, records, listener, armed_before):
         if res == "DISC":
             if f1[3] != "1" or o["rid"] != "x":
                 return ("c27-oracle", i, "step %d (%s) raised a disconnect error but the Connection is not invalidated (invalidated=%s, holds %s)" % (i, tok, f1[3], o["rid"]))
-            if listener != "nopool":
-                if held0 != "x":
-                    stale.add(held0)
+            # (a DISC raised while nothing was held is a failed reconnect: the creator's error is
+            # classified, but no existing connection failed - the pool is not invalidated)
+            if listener != "nopool" and held0 != "x":
+                stale.add(held0)
                 stale.update(x for x in before["idle"].split(",") if x not in ("-", "N", "?"))
         # (b) connections opened before the failure are not reused
         held1 = o["rid"].rstrip("au!")
@@ -69,12 +70,15 @@ def oracle(ops, records, listener, armed_before):
         reconnectable = (
             f0[3] == "1" and f0[2] == "0" and before["transaction"] == "N" and before["nested"] == "N" and before["ctx"] == "N"
         )
-        if reconnectable and tok[0] in EXEC and armed_before[i] == 0:
+        if reconnectable and tok[0] in EXEC and not armed_before[i]:
             allowed = ("ok", "IE", "DISC") if listener == "force" else ("ok", "IE")  # a reclassifying listener turns the IntegrityError into a disconnect
             if res not in allowed:
                 return ("c27-oracle", i, "step %d (%s) raised %s although the invalidated Connection has no transaction: it should reconnect transparently" % (i, tok, res))
             if res != "DISC" and (o["rid"] == "x" or f1[3] == "1"):
                 return ("c27-oracle", i, "step %d (%s) did not leave the Connection reconnected" % (i, tok))
+        # (j) only an error classified as a disconnect may be reported (and handled) as one
+        if res == "DISC" and listener != "force" and not any(k == "d" for _, k in armed_before[i]):
+            return ("c27-oracle", i, "step %d (%s) reported connection_invalidated=True although no disconnect-classified error was raised by the DBAPI (armed faults: %s)" % (i, tok, armed_before[i]))
         # (h) rollback() always ends the transaction (this is what un-blocks the Connection)
         if tok == "R" and res == "ok" and o["transaction"] != "N" and f0[2] == "0":
             return ("c27-oracle", i, "step %d: Connection.rollback() returned normally but transaction object #%s is still attached" % (i, o["transaction"]))
@@ -104,6 +108,20 @@ def gen_fault_history(rng, world, n):
         steps += 1
         r = rng.random()
         nh = len(world.handles)
+        c = world.conn
+        if c is not None and c.invalidated and c.get_transaction() is None and not world.plan.armed and rng.random() < 0.5:
+            # the database is still down: the reconnect itself fails, then it comes back and
+            # an ordinary error happens on the fresh connection
+            yield "Fn" + rng.choice("dde")
+            yield rng.choice(["q", "i%d" % k])
+            k += 1
+            if rng.random() < 0.7:
+                yield "q"
+                yield "Fxe"
+                yield "i%d" % k
+                k += 1
+                yield "q"
+            continue
         if r < 0.18:
             # arm a fault, then usually an op that reaches it
             p = rng.choice("uxxxccrr")
@@ -149,31 +167,31 @@ def gen_fault_history(rng, world, n):
     yield "q"
 
 
-def run_history(rng, n, listener, reset="rollback"):
+def run_history(rng, n, listener, reset="rollback", recycle=None, pre_ping=False):
     from harness import lib_txn
 
-    w = lib_txn.World(reset, "c27", listener=listener)
+    w = lib_txn.World(reset, "c27", listener=listener, recycle=recycle, pre_ping=pre_ping)
     ops, recs, armed = [], [], []
     try:
         for tok in gen_fault_history(rng, w, n):
             if tok.startswith("W") and w.plan.armed:
                 continue
             ops.append(tok)
-            armed.append(len(w.plan.armed))
+            armed.append(list(w.plan.armed))
             recs.append(w.step(tok))
     finally:
         w.dispose()
     return ops, recs, armed
 
 
-def replay_ops(ops, listener, reset="rollback"):
+def replay_ops(ops, listener, reset="rollback", recycle=None, pre_ping=False):
     from harness import lib_txn
 
-    w = lib_txn.World(reset, "c27r", listener=listener)
+    w = lib_txn.World(reset, "c27r", listener=listener, recycle=recycle, pre_ping=pre_ping)
     recs, armed = [], []
     try:
         for tok in ops:
-            armed.append(len(w.plan.armed))
+            armed.append(list(w.plan.armed))
             recs.append(w.step(tok))
     finally:
         w.dispose()
@@ -194,6 +212,18 @@ FIXED = [
     ("i1;n;Fre;R;q", "none"),  # F19 (non-disconnect error from rollback)
     ("b;e0;i1;Fxd;i2;f0;q", "none"),
     ("i1;i1;q;C", "force"),  # IntegrityError reclassified as a disconnect by the listener
+    # the database stays down: the reconnect fails too; later an ordinary error
+    ("W2;b;i1;Fxd;i2;R;Fnd;q;q;Fxe;i3;q;i4;C;q", "none"),
+    ("W1;i1;Fxd;i2;R;Fne;q;q;C", "none"),
+]
+
+FIXED_RC = [
+    ("W3;W1;Fxd;i1;R;Fnd;q;q;Frd;R;Frd;R;b;R;q", "nopool", 6),
+    ("W3;W1;Fxd;i1;R;Fnd;q;q;Frd;R;Frd;R;b;R;q", "nopool", 7),
+    ("W3;W1;Fxd;i1;R;Fnd;q;q;Frd;R;Frd;R;b;R;q", "nopool", 5),
+    ("W2;X;N;q;X;N;q;X;N;q;X;N;q", "none", 3),
+    ("W2;X;N;q;X;N;q;X;N;q;X;N;q", "none", 4),
+    ("W1;Fxd;i1;W2;q;X;N;q;X;N;q", "none", 6),
 ]
 
 
@@ -201,18 +231,22 @@ def run(ctx, deep=False):
     from harness import lib_txn
 
     ctx.rule = (
-        "histories (<=10 ops quick, <=16 thorough, plus 13 scripted) of execute/begin/begin_nested/commit/rollback/handle ops/"
-        "invalidate with extra pooled connections, a fault (disconnect or plain error) armed at cursor()/execute()/commit()/rollback() at "
-        "random positions, x handle_error listener in {none, passive, reclassify-as-disconnect, keep-pool}; every op's record compared "
-        "with the Lean model and checked by the oracle; non-trivial = at least one fault fired or invalidate() was called"
+        "histories (<=10 ops quick, <=16 thorough, plus 15 scripted x 2 pool_recycle settings) of execute/begin/begin_nested/commit/rollback/handle ops/"
+        "invalidate with extra pooled connections, a fault (disconnect or plain error) armed at cursor()/execute()/commit()/rollback() and at "
+        "the pool's creator (failing reconnects followed by working ones and by plain errors) at random positions, x handle_error "
+        "listener in {none, passive, reclassify-as-disconnect, keep-pool} x pool_recycle in {unset, 3600, 6 or 3 clock ticks} x pool_pre_ping "
+        "(12%, oracle only); every op's record compared with the Lean model and checked by the oracle; non-trivial = at least one "
+        "fault fired or invalidate() was called"
     )
     ctx.trusted.append("pysqlite is_disconnect classification (closed-database ProgrammingError) stands for every dialect's table")
     ctx.trusted.append("logical clock substituted for time.time in sqlalchemy.pool.base")
     big = ctx.tier == "thorough" or deep
     cases, impl_out, reqs = [], [], []
 
-    def check(ops, recs, armed, listener):
-        case = {"ops": ops, "listener": listener}
+    def check(ops, recs, armed, listener, recycle=None, pre_ping=False):
+        case = {"ops": ops, "listener": listener, "recycle": recycle, "pre_ping": pre_ping}
+        ctx.count("recycle=%s" % recycle)
+        ctx.count("pre_ping=%s" % pre_ping)
         fired = any(r.split("/")[0].split(":")[0] in ("DISC", "OE") for r in recs) or "I" in ops
         ctx.case(listener + ":" + ";".join(ops), nontrivial=fired)
         ctx.count("listener=" + listener)
@@ -222,23 +256,35 @@ def run(ctx, deep=False):
             ctx.count("res=" + r.split("/")[0].split(":")[0])
         bad = oracle(ops, recs, listener, armed)
         if bad:
-            ctx.violation(bad[0], {"ops": ops[: bad[1] + 1], "listener": listener}, bad[2])
+            ctx.violation(bad[0], {"ops": ops[: bad[1] + 1], "listener": listener, "recycle": recycle, "pre_ping": pre_ping}, bad[2])
+        if pre_ping:
+            return  # pre-ping is not in the Lean model: oracle only
         cases.append(case)
         impl_out.append("|".join(recs) if recs else "-")
-        reqs.append(lib_txn.driver_line(ops, "rollback", listener))
+        reqs.append(lib_txn.driver_line(ops, "rollback", listener, recycle=recycle))
 
     for s, lis in FIXED:
         ops = s.split(";")
-        recs, armed = replay_ops(ops, lis)
-        check(ops, recs, armed, lis)
-    n = 9000 if big else 1500
+        for rc in (None, 3600):
+            recs, armed = replay_ops(ops, lis, recycle=rc)
+            check(ops, recs, armed, lis, rc)
+    # the age test at its boundary (a pooled connection exactly pool_recycle ticks old / one older)
+    for s, lis, rc in FIXED_RC:
+        ops = s.split(";")
+        recs, armed = replay_ops(ops, lis, recycle=rc)
+        check(ops, recs, armed, lis, rc)
+    n = 15000 if big else 2500
     maxlen = 16 if big else 10
     for i in range(n):
         lis = ctx.rng.choice(["none", "none", "passive", "force", "nopool"])
-        ops, recs, armed = run_history(ctx.rng, ctx.rng.randint(3, maxlen), lis)
-        check(ops, recs, armed, lis)
+        # pool_recycle configured (far in the future, or a few clock ticks so that real
+        # recycling happens) changes the path through _ConnectionRecord.get_connection
+        rc = ctx.rng.choice([None, None, 3600, 3600, 6, 6, 3])
+        pp = ctx.rng.random() < 0.12
+        ops, recs, armed = run_history(ctx.rng, ctx.rng.randint(3, maxlen), lis, recycle=rc, pre_ping=pp)
+        check(ops, recs, armed, lis, rc, pp)
         if i % 300 == 0:
-            ctx.sample({"listener": lis, "ops": ";".join(ops), "last": recs[-1]})
+            ctx.sample({"listener": lis, "recycle": rc, "pre_ping": pp, "ops": ";".join(ops), "last": recs[-1]})
     if ctx.driver_ok():
         ctx.correspond("corr/c27:disconnect-handling-vs-Model.Txn", cases, impl_out, ctx.driver(reqs))
 
@@ -246,10 +292,10 @@ def run(ctx, deep=False):
 def search(ctx, broken):
     for d in ctx.disagreements:
         c = d["case"]
-        recs, armed = replay_ops(c["ops"], c["listener"])
+        recs, armed = replay_ops(c["ops"], c["listener"], recycle=c.get("recycle"), pre_ping=c.get("pre_ping", False))
         bad = oracle(c["ops"], recs, c["listener"], armed)
         if bad:
-            ctx.violation(bad[0], {"ops": c["ops"][: bad[1] + 1], "listener": c["listener"]}, bad[2])
+            ctx.violation(bad[0], {"ops": c["ops"][: bad[1] + 1], "listener": c["listener"], "recycle": c.get("recycle"), "pre_ping": c.get("pre_ping", False)}, bad[2])
     sub = type(ctx)(ctx.pid, "thorough", ctx.seed + 1, ctx.level)
     run(sub, deep=True)
     ctx.violations.extend(sub.violations)
@@ -257,9 +303,9 @@ def search(ctx, broken):
 
 def replay(ctx, obj):
     c = obj["case"]
-    recs, armed = replay_ops(c["ops"], c["listener"])
+    recs, armed = replay_ops(c["ops"], c["listener"], recycle=c.get("recycle"), pre_ping=c.get("pre_ping", False))
     bad = oracle(c["ops"], recs, c["listener"], armed)
-    print("replay C27 listener=%s ops=%s" % (c["listener"], ";".join(c["ops"])))
+    print("replay C27 listener=%s recycle=%s pre_ping=%s ops=%s" % (c["listener"], c.get("recycle"), c.get("pre_ping", False), ";".join(c["ops"])))
     for t, r in zip(c["ops"], recs):
         print("  %-5s %s" % (t, r))
     print("oracle:", bad)
